@@ -44,7 +44,7 @@ func (f *Or) Call(s *slip.Scope, args slip.List, depth int) (result slip.Object)
 	result = nil
 	d2 := depth + 1
 	for i := range args {
-		if result = slip.EvalArg(s, args, i, d2); result != nil {
+		if result = slip.EvalArg(s, args, i, d2); slip.Primary(result) != nil {
 			break
 		}
 	}
